@@ -54,6 +54,21 @@ def run(prog: Program, rep: Report):
             rep.unrec("C19.R1", f, "dispatch", f"cannot tell what the dispatch test `{src(test)}` distinguishes")
     init = bi.methods.get("__init__")
     if init is not None:
+        # the input is kept as given: an iterator made in the constructor (iter(x), a generator expression, map ...) can be walked
+        # once, so the second pass over the same BatcherIter would be empty
+        dstores = [(t, v, st) for t, v, st in iter_stores(init.node) if dotted(t) == (init.self_name, "data") and v is not None]
+        wrapped = [v for _, v, _ in dstores if not (isinstance(v, ast.Name) and v.id in init.params)]
+        one_shot = [v for v in wrapped if any((isinstance(x, ast.Call) and src(x.func) in ("iter", "map", "filter", "zip", "enumerate", "reversed"))
+                                              or isinstance(x, ast.GeneratorExp) for x in ast.walk(v))]
+        if one_shot:
+            rep.viol("C19.R1", init, "data-as-given", f"the constructor stores `{src(one_shot[0])[:80]}`: an iterator made once, so only the "
+                     "first pass over the object sees the data",
+                     scenario="it = BatcherIter([1, 2, 3], 2); list(it) == [[1, 2], [3]]; list(it) == [] (and a pass after an "
+                              "abandoned one resumes mid-stream)", line=one_shot[0].lineno)
+        elif wrapped:
+            rep.unrec("C19.R1", init, "data-as-given", f"the constructor stores `{src(wrapped[0])[:80]}` instead of the input itself")
+        elif dstores:
+            rep.ok("C19.R1", init, "data-as-given", "self.data is the constructor's argument itself (re-iterable when the caller's input is)")
         rep.fn(init)
         from ..orderings import NotAFormula, eval_order, weak_orderings
         size_p = init.params[2]
@@ -252,7 +267,8 @@ def r4_window_scan(prog: Program, rep: Report):
 def r5_multiset(prog: Program, rep: Report):
     rep.rule("C19.R5", "compare_pos_in_iterables compares multisets: the recognised shapes are the remove-loop over a list copy "
              "(False on ValueError, True iff nothing is left) and Counter equality; a comparison through set() ignores "
-             "multiplicities; the inputs (Iterable: possibly generators) are traversed at most once on every path", floor=2)
+             "multiplicities; the inputs (Iterable: possibly generators) are traversed at most once on every path and the caller's "
+             "objects are not modified", floor=3)
     f = prog.func("compare_pos_in_iterables", GENERIC_MOD)
     rep.fn(f)
     a, b = f.params[0], f.params[1]
@@ -279,6 +295,20 @@ def r5_multiset(prog: Program, rep: Report):
         rep.ok("C19.R5", f, "multiset", "remove-loop over a list copy / Counter equality")
     else:
         rep.unrec("C19.R5", f, "multiset", "multiset comparison idiom not recognised")
+    # the multiset is taken apart in a private copy: the list that .remove() works on is never the caller's object
+    from ..flow import Flow
+    flow = Flow(f.node)
+    shared = []
+    for c_ in removes:
+        recv = c_.func.value
+        if isinstance(recv, ast.Name):
+            for d_ in flow.defs_of(recv):
+                if d_.kind == "param":
+                    shared.append(c_)
+    rep.check("C19.R5", f, "private-copy", bool(removes) and not shared or counter, "elements are removed from a private copy of the second input",
+              f"`{src(shared[0]) if shared else ''}` can run on the caller's own list (a path skips the copy): the argument is emptied",
+              scenario="b = [1, 2]; compare_pos_in_iterables([1, 2], b) is True and leaves b == []: the next comparison with b is wrong",
+              line=shared[0].lineno if shared else None)
     check_oneshot(prog, rep, "C19.R5", f, role="one-shot",
                   scenario="compare_pos_in_iterables(iter([0, 'a']), [0, 'a']) is False and compare_pos_in_iterables(iter([0, 'a']), []) is True")
 
